@@ -5,7 +5,8 @@ open Proto
 
 /-
   Line-protocol driver of the heap model (C12).  The harness (driver/props/c12.py) builds the same object graph
-  on real pyroll objects and in this model, op by op, and compares after every op
+  on real pyroll objects and in this model, op by op, and compares after every op (also after the construction of a
+  roll pass: `pass` from a template slot, `passr` from the roll of another pass)
     * the names of the pre-existing objects the op wrote to (from the model's effect trace), and
     * the canonical aliasing graph of everything it holds a handle on (`dump`).
   Handles are "slots" (registration order); object identities are printed as class numbers in order of first
@@ -187,12 +188,6 @@ def parseFields (d : DS) (str : String) : Option (List (Nat × Nat)) :=
     | [f, k] => do pure ((← nat? f), d.slot (← nat? k))
     | _ => none)
 
-/-- `Unit.__init__`: the unit and its (empty) sub-unit list -/
-def newUnit (s : S) (ob : Obj) : S × Nat :=
-  let (s1, u) := s.alloc ob
-  let (s2, l) := s1.alloc { kind := .subList, weak := some u }
-  (s2.write u fSUB l, u)
-
 /-- pre-order of the units below (and including) `u` -/
 def unitTree : Nat → H → Nat → List Nat
   | 0, _, u => [u]
@@ -237,9 +232,16 @@ def handle (d : DS) (line : String) : DS × String :=
       ({ d with s := s }.reg p, "ok")
     | none => (d, "bad-op")
   | ["pass", rot, disks, t] =>
-    let (s1, u) := newUnit d.s { kind := .unit, tag := 1, rot := boolOf rot, disks := (nat? disks).getD 0 }
-    let (s2, r) := s1.alloc (rollCopy s1.h u (d.slot ((nat? t).getD 0)))
-    ({ d with s := s2.write u fROLL r }.reg u, "ok")
+    -- a pass built from the roll template in slot `t`; `self.roll` bound in the form the translator read
+    let (s1, u) := mkPass Gen.C12.rollStore d.s (boolOf rot) ((nat? disks).getD 0) (d.slot ((nat? t).getD 0))
+    ({ d with s := s1 }.reg u, writtenNames d s1)
+  | ["passr", rot, disks, k] =>
+    -- a pass built from the ROLL OF THE PASS in slot `k` (`RollPass(roll=other.roll, …)`)
+    match getF d.s.h (d.slot ((nat? k).getD 0)) fROLL with
+    | some t =>
+      let (s1, u) := mkPass Gen.C12.rollStore d.s (boolOf rot) ((nat? disks).getD 0) t
+      ({ d with s := s1 }.reg u, writtenNames d s1)
+    | none => (d, "bad-op")
   | ["transport", disks, ovr] =>
     let (s1, u) := newUnit d.s { kind := .unit, tag := 2, disks := (nat? disks).getD 0, ovr := boolOf ovr }
     ({ d with s := s1 }.reg u, "ok")
